@@ -107,6 +107,16 @@ func (s *Subject) newFuncEntry(id string, sig *progen.Sig) *Entry {
 	return e
 }
 
+// AddPlumb emits the curry/flip/apply/uncurry/tuple wrappers for a signature (exported for C01's generator).
+func AddPlumb(p *progen.Prog, used progen.Used, s *Subject, sig *progen.Sig, id string, share int) {
+	addPlumb(p, used, s, sig, id, share)
+}
+
+// AddErrorForms emits one drawn error-propagating form (exported for C01's generator).
+func AddErrorForms(rt *rapid.T, env *progen.Env, p *progen.Prog, used progen.Used, s *Subject, id string, o FuncOpt) {
+	addErrorForms(rt, env, p, used, s, id, o)
+}
+
 func addPlumb(p *progen.Prog, used progen.Used, s *Subject, sig *progen.Sig, id string, share int) {
 	e := s.newFuncEntry(id, sig)
 	ft := sig.FuncType(p.T)
